@@ -515,7 +515,9 @@ def _choose_one_hash(hash_dict):
     elif "SHA-512" in hash_dict:
         return {"SHA-512": hash_dict["SHA-512"]}
     else:
-        k = next(iter(hash_dict), None)
+        # None of the preferred algorithms: take the first by name, so that
+        # the choice does not depend on the order of the dictionary.
+        k = min(hash_dict, default=None)
         if k is not None:
             return {k: hash_dict[k]}
 
